@@ -33,6 +33,16 @@ CHECKS = {
     text="Decides the driver-level part: for the cross product of extrapolation, FMG, enabled/disabled tolerances, exact solution present or not, 0..2 iterations, verbose and paraview, with every stop-test outcome explored, no path of setup()+solve()+statistics accessors reads an unassigned scalar, accesses an empty list, dereferences a null input function, unwraps a disabled tolerance or uses a vector/operator setup() did not allocate/initialise in that mode. Option tables and mandated rejections are structural rules over the parser (added as they are built).",
     note="Trusted: as C10; NDEBUG build as shipped. Not decided: memory safety of the numerical kernels for all inputs (C18 covers grid generation, C11 the parallel regions on representative shapes), debug-build assertions.",
     ref="DESIGN.md section 4 / C20"),
+ "C14": dict(
+    level="other", technique="static analysis: typestate/dominance rule on the factorisation flag over the clang AST; who-may-call over the whole-program call graph",
+    text="Decides the necessary structural half of 'repeated solves with the same object return identical results': in both solve paths every write of stored matrix data (diagonals, corner, gamma_) is dominated by `!factorized_`, the guarded block sets the flag before it can be left, nothing else writes the flag, and the mutable entry accessors are reachable only from matrix-build code that runs inside smoother constructors (call graph over all 80 library units). Hence after the first solve the object is immutable. That LDL^T plus Sherman-Morrison is backward stable for every SPD input is a numerical statement and is not decided.",
+    note="Trusted: clang front end, gmgir lowering, call graph (direct calls + virtual overriders). Not decided: accuracy/stability, n=2 corner coincidence.",
+    ref="DESIGN.md section 4 / C14"),
+ "C17": dict(
+    level="other", technique="static analysis: abstract interpretation (integers concrete, doubles erased) of the index functions from source on a case-complete family of grid shapes; structural rules",
+    text="index/fastIndex/index(MultiIndex)/both multiIndex variants/wrapThetaIndex are interpreted from source on every node of shapes nr 2..12 x ntheta (powers of two and not) x every split 0..nr: agreement, bijection onto 0..N-1, inversion, periodic wrap on both code paths. The functions are piecewise linear with predicates r<nsc and node<ncirc only, so the family realises every case. Split identities hold on every path of initializeLineSplitting (float comparisons forked both ways); the power-of-two flag is recomputed after every write of ntheta_; coarsening reads index 2i with sizes (nr+1)/2 and ntheta/2+1; constructors validate before use. Every array subscript met on the way is bounds-checked.",
+    note="Trusted: clang front end, gmgir lowering, own IR interpreter (C integer semantics). Not decided: neighbour/spacing queries agreeing with coordinates as floating-point values.",
+    ref="DESIGN.md section 4 / C17"),
 }
 NA = {
  "C02": "order of accuracy is a limit statement about numerical error under refinement; no clause is visible in the shape of the code (its code-shaped preconditions are checked under C03/C10/C19)",
